@@ -488,6 +488,15 @@ V("c10-n-factory-through-helper", "C10", "pass", edits=[(DYI, "            dynam
 V("c10-factory-memoised", "C10", "violation", "C10.R4", edits=[(DYI, "            dynamics = TwoBody(method=prop_cfg.integration_method)\n", "            dynamics = _CACHE.setdefault(prop_cfg.integration_method, TwoBody(method=prop_cfg.integration_method))\n"), (DYI, "def dynamicsFactory(", "_CACHE = {}\n\n\ndef dynamicsFactory(")])
 V("c12-check-ecc-on-longitude-conversion", "C12", "violation", "C12.R3", edits=[("physics/orbits/anomaly.py", "@wrap_anomaly\ndef meanLong2TrueAnom(", "@wrap_anomaly\n@check_ecc\ndef meanLong2TrueAnom(")])
 
+V("c15-sp-thrust-on-ecef-position", "C15", "violation", "C15.R3", edits=[("dynamics/special_perturbations.py", "a_perturbations += self.finite_thrust(concatenate((r_eci, v_eci)))[:3]", "a_perturbations += self.finite_thrust(concatenate((r_ecef, v_eci)))[:3]")])
+
+V("c19-importer-path-withheld-when-realtime", "C19", "violation", "C19.R4", edits=[("scenario/scenario_builder.py", "                decision,\n                importer_db_path,\n", "                decision,\n                None if self.config.observation.realtime_observation else importer_db_path,\n")])
+V("c19-n-importer-path-alias", "C19", "pass", edits=[("scenario/scenario_builder.py", "                decision,\n                importer_db_path,\n", "                decision,\n                db_path_for_engine,\n"), ("scenario/scenario_builder.py", "            # Create the tasking engine object\n", "            db_path_for_engine = importer_db_path\n            # Create the tasking engine object\n")])
+V("c18-gpb1-normaliser-not-recomputed", "C18", "violation", "C18.R4", edits=[("estimation/adaptive/gpb1.py", "                self.model_likelihoods = ones_like(self.mode_probabilities)\n                c = dot(self.model_likelihoods, self.mode_probabilities)\n", "                self.model_likelihoods = ones_like(self.mode_probabilities)\n")])
+V("c20-universal-bracket-by-sense", "C20", "violation", "C20.R3", edits=[("physics/orbit_determination/lambert.py", "    psi_up = 4.0 * PI**2\n", "    psi_up = PI**2 if transfer_method > 0 else 4.0 * PI**2\n")])
+V("c16-angular-mean-linear-fallback", "C16", "violation", "C16.R2", edits=[("physics/maths.py", "    result_mean = wrapAngle2Pi(arctan2(sin_mean, cos_mean))", "    if abs(sin_mean) + abs(cos_mean) < 1e-8:\n        return sum(angles * weights)\n    result_mean = wrapAngle2Pi(arctan2(sin_mean, cos_mean))")])
+V("c15-prune-isclose", "C15", "violation", "C15.R2", edits=[(AB, "                if not self._time < itr_event.end_time or fpe_equals(\n                    itr_event.end_time,\n                    self._time,\n                ):", "                if not self._time < itr_event.end_time or isclose(itr_event.end_time, self._time):"), (AB, "from numpy import ndarray", "from numpy import isclose, ndarray")])
+
 # ------------------------------------------------------------------------------------ seeded changes kept under /verif/seeded
 import json as _json
 import os as _os
